@@ -358,3 +358,108 @@ Proof.
   intros Hle [f E]. exists f. unfold run in *. eapply eval_sq_mono; [|exact E].
   apply cte_env_mono; [lia | apply view_env_mono; exact Hle].
 Qed.
+
+(** * renaming the CTEs of a query (session.sql gives the user's CTEs their hash names when it builds the
+    DataFrame): a renaming that is injective on the names of the query and only touches CTE names does
+    not change what the query returns *)
+Definition sigma_of (names : list (string * string)) : string -> string :=
+  fun n => match assoc n names with Some m => m | None => n end.
+
+Definition alpha_ctes (names : list (string * string)) (q : query) : query :=
+  let sg := sigma_of names in
+  mkQuery (map (fun c => (sg (fst c), ren_sq sg (snd c))) (q_ctes q)) (ren_sq sg (q_main q)).
+
+Definition query_names (q : query) : list string := map fst (q_ctes q) ++ refs q.
+
+Definition alpha_ok (names : list (string * string)) (q : query) : bool :=
+  let sg := sigma_of names in
+  let l := query_names q in
+  forallb (fun k => forallb (fun n => negb (String.eqb (sg k) (sg n)) || String.eqb k n) l) l
+  && forallb (fun p => mem (fst p) (map fst (q_ctes q))) names.
+
+Lemma eval_ren_eq_both rho (e1 e2 : env) :
+  (forall q, (forall m, In m (names_sq q) -> e1 (rho m) = e2 m) -> eval_sq e1 (ren_sq rho q) = eval_sq e2 q) /\
+  (forall f, (forall m, In m (names_from f) -> e1 (rho m) = e2 m) -> eval_from e1 (ren_from rho f) = eval_from e2 f).
+Proof.
+  apply sq_from_ind; intros; cbn [ren_sq ren_from eval_sq eval_from names_sq names_from] in *.
+  - rewrite H; auto.
+  - rewrite H; auto.
+  - apply H; left; reflexivity.
+  - reflexivity.
+  - auto.
+  - rewrite H, H0; auto; intros m Hm; apply H1; apply in_or_app; auto.
+Qed.
+Definition eval_ren_eq rho e1 e2 := proj1 (eval_ren_eq_both rho e1 e2).
+
+Section Alpha.
+  Variable names : list (string * string).
+  Variable q : query.
+  Variable base : env.
+  Hypothesis OK : alpha_ok names q = true.
+
+  Let sg := sigma_of names.
+  Let C := q_ctes q.
+  Let C2 := map (fun c => (sg (fst c), ren_sq sg (snd c))) C.
+
+  Lemma sg_inj k n : In k (query_names q) -> In n (query_names q) -> sg k = sg n -> k = n.
+  Proof.
+    intros Hk Hn E. unfold alpha_ok in OK. apply andb_true_iff in OK. destruct OK as [H _].
+    rewrite forallb_forall in H. specialize (H k Hk). rewrite forallb_forall in H. specialize (H n Hn).
+    fold sg in H. rewrite E, String.eqb_refl in H. simpl in H. apply String.eqb_eq. exact H.
+  Qed.
+
+  Lemma sg_only_ctes n : assoc n C = None -> sg n = n.
+  Proof.
+    intro Hn. unfold sg, sigma_of. destruct (assoc n names) as [m|] eqn:E; [|reflexivity].
+    exfalso. unfold alpha_ok in OK. apply andb_true_iff in OK. destruct OK as [_ H].
+    rewrite forallb_forall in H. specialize (H _ (assoc_In _ _ _ E)). cbn [fst] in H.
+    apply mem_In in H. apply in_map_iff in H. destruct H as [[k b] [Hk Hin]]. cbn in Hk. subst k.
+    clear -Hn Hin. fold C in Hin. induction C as [|[k v] l IH]; [contradiction|].
+    simpl in Hn. destruct (String.eqb k n) eqn:Ek; [discriminate|].
+    destruct Hin as [Hin|Hin]; [inversion Hin; subst; rewrite String.eqb_refl in Ek; discriminate | auto].
+  Qed.
+
+  Lemma key_in_names k v : In (k, v) C -> In k (query_names q).
+  Proof. intro H. unfold query_names. apply in_or_app. left. apply in_map_iff. exists (k, v). auto. Qed.
+
+  Lemma assoc_C2 n : In n (query_names q) -> assoc (sg n) C2 = option_map (ren_sq sg) (assoc n C).
+  Proof.
+    intro Hn. unfold C2.
+    assert (H : forall l, (forall k v, In (k, v) l -> In (k, v) C) ->
+              assoc (sg n) (map (fun c => (sg (fst c), ren_sq sg (snd c))) l) = option_map (ren_sq sg) (assoc n l)).
+    { induction l as [|[k v] l IH]; intro Hl; [reflexivity|]. cbn [map assoc fst snd].
+      destruct (String.eqb k n) eqn:Ek.
+      - apply String.eqb_eq in Ek. subst k. rewrite String.eqb_refl. reflexivity.
+      - destruct (String.eqb (sg k) (sg n)) eqn:Es.
+        + apply String.eqb_eq in Es. apply sg_inj in Es; [|eapply key_in_names; apply Hl; left; reflexivity | exact Hn].
+          subst k. rewrite String.eqb_refl in Ek. discriminate.
+        + apply IH. intros k' v' H'. apply Hl. right. exact H'. }
+    apply H. auto.
+  Qed.
+
+  Lemma body_names n body m : assoc n C = Some body -> In m (names_sq body) -> In m (query_names q).
+  Proof.
+    intros H Hm. unfold query_names, refs. apply in_or_app. right. apply in_or_app. left.
+    apply in_flat_map. exists (n, body). split; [apply assoc_In; exact H | exact Hm].
+  Qed.
+
+  Lemma alpha_env : forall f n, In n (query_names q) -> cte_env f C2 base (sg n) = cte_env f C base n.
+  Proof.
+    induction f as [|f IH]; intros n Hn; cbn [cte_env]; rewrite (assoc_C2 n Hn);
+      destruct (assoc n C) as [body|] eqn:Eb; cbn [option_map]; try reflexivity.
+    - rewrite (sg_only_ctes n Eb). reflexivity.
+    - apply eval_ren_eq. intros m Hm. apply IH. eapply body_names; eauto.
+    - rewrite (sg_only_ctes n Eb). reflexivity.
+  Qed.
+
+  Theorem alpha_sound_sect : forall f, run f (alpha_ctes names q) base = run f q base.
+  Proof.
+    intro f. unfold run, alpha_ctes. cbn [q_ctes q_main]. fold sg. fold C. fold C2.
+    apply eval_ren_eq. intros m Hm. apply alpha_env.
+    unfold query_names, refs. apply in_or_app. right. apply in_or_app. right. exact Hm.
+  Qed.
+End Alpha.
+
+Theorem alpha_sound : forall names q base f, alpha_ok names q = true ->
+  run f (alpha_ctes names q) base = run f q base.
+Proof. intros names q base f OK. apply alpha_sound_sect. exact OK. Qed.
